@@ -209,6 +209,73 @@ class FaultSpec(Spec):
         return {'atoms': uniq, 'outcome': '|'.join(outcome), 'case': {'cell': list(hist), 'module': src}, 'nontrivial': 1}
 
 
+class PairSpec(Spec):
+    """two failing doctests in one module [ok, bad1, bad2, ok]: the first failure must not disturb the report,
+    the tallies or the execution of the second, whatever the two kinds are"""
+    prop = 'C09'
+    name = 'failure-pairs'
+    batch = 4
+    title = 'every ordered pair of failure kinds in one module through doctest_module'
+
+    def __init__(self):
+        self.max_len = 3
+        self.kinds = [k for k in KINDS if k != 'importerror']
+        self.rule = ('all ordered pairs of %d failure kinds x verbosity {0, 3}: module [ok, bad1, bad2, ok] through '
+                     'doctest_module(all): 4 run, 2 failed, 2 passed, both failures rendered with their own type and line; '
+                     'non-trivial = all' % len(self.kinds))
+
+    def histories(self, stats):
+        for a in self.kinds:
+            for b in self.kinds:
+                for v in (0, 3):
+                    yield (a, b, v)
+
+    def hist_cost(self, hist):
+        return 0
+
+    def run_case(self, hist):
+        from xdoctest import runner
+        k1, k2, verbose = hist
+        src1, line1 = build(k1, 'middle', 'none')
+        src2, line2 = build(k2, 'middle', 'want')
+        # second module text: take the function 'bad' of src2, rename it, append to src1 before ok2
+        body2 = src2[src2.index('def bad():'):src2.index('def ok2():')].replace('def bad():', 'def bad2():')
+        cut = src1.index('def ok2():')
+        src = src1[:cut] + body2 + src1[cut:]
+        off2 = src[:src.index('def bad2():')].count('\n') - src2[:src2.index('def bad():')].count('\n')
+        exp = {'bad': (k1, line1), 'bad2': (k2, line2 + off2)}
+        modname = harness.unique_modname('m09p', src)
+        atoms = []
+        with harness.scratch_dir('c09p') as d:
+            p = os.path.join(d, modname + '.py')
+            with open(p, 'w') as f:
+                f.write(src)
+            buf = io.StringIO()
+            try:
+                with contextlib.redirect_stdout(buf), contextlib.redirect_stderr(buf), harness.fresh_process_warning_filters():
+                    rs = runner.doctest_module(p, 'all', argv=[], style='freeform', verbose=verbose, config={'colored': False})
+                tal = (rs.get('n_total'), rs.get('n_passed'), rs.get('n_failed'), rs.get('n_skipped'))
+                if tal != (4, 2, 2, 0):
+                    atoms.append({'sig': 'pairs:tallies', 'msg': '(total, passed, failed, skipped)=%r, expected (4, 2, 2, 0)' % (tal,)})
+                else:
+                    names = sorted(e.callname for e in rs['failed'])
+                    if names != ['bad', 'bad2']:
+                        atoms.append({'sig': 'pairs:failed-list', 'msg': repr(names)})
+                    for e in rs['failed']:
+                        if e.callname in exp:
+                            check_render(e, exp[e.callname][0], exp[e.callname][1], atoms, 'doctest_module/' + e.callname)
+            except BaseException as ex:
+                if type(ex).__name__ == 'CaseTimeout':
+                    raise
+                atoms.append({'sig': 'pairs:runner-aborted:' + type(ex).__name__, 'msg': repr(ex)})
+            finally:
+                harness.forget_modules(modname)
+        seen = set()
+        uniq = [a for a in atoms if not (a['sig'] in seen or seen.add(a['sig']))]
+        return {'atoms': uniq, 'outcome': 'ok' if not uniq else 'bad', 'case': {'kinds': [k1, k2], 'verbose': verbose, 'module': src},
+                'nontrivial': 1}
+
+
 class CliFaultSpec(Spec):
     prop = 'C09'
     name = 'cli'
@@ -256,5 +323,5 @@ class CliFaultSpec(Spec):
 
 def specs(tier):
     if tier == 'thorough':
-        return [FaultSpec(), CliFaultSpec(['first', 'middle', 'last'])]
+        return [FaultSpec(), PairSpec(), CliFaultSpec(['first', 'middle', 'last'])]
     return [FaultSpec(), CliFaultSpec(['middle'])]
